@@ -26,8 +26,9 @@ type c16Call struct {
 	Reverse int  `json:"reverse"`
 	Alias   bool `json:"alias,omitempty"`
 	Gate    bool `json:"gate,omitempty"`
-	Slow    bool `json:"slow,omitempty"`  // blocked in a reverse call when the cut happens
-	Burst   int  `json:"burst,omitempty"` // concurrent reverse calls with 1 MiB arguments into a client whose link is stalled, then cut
+	Slow    bool `json:"slow,omitempty"`   // blocked in a reverse call when the cut happens
+	Notify  bool `json:"notify,omitempty"` // the forward call is a notification (its handler still makes the reverse calls)
+	Burst   int  `json:"burst,omitempty"`  // concurrent reverse calls with 1 MiB arguments into a client whose link is stalled, then cut
 }
 
 type c16Case struct {
@@ -92,7 +93,11 @@ func runC16(c c16Case) (*Violation, string) {
 			ps = append(ps, p)
 			continue
 		}
-		ps = append(ps, rig.Go(cl, "call", tok, Plan{Gate: cc.Gate, Reverse: cc.Reverse, RevAlias: cc.Alias, RevSlow: cc.Slow}))
+		kind := "call"
+		if cc.Notify && c.Mode == "ws" {
+			kind = "notify"
+		}
+		ps = append(ps, rig.Go(cl, kind, tok, Plan{Gate: cc.Gate, Reverse: cc.Reverse, RevAlias: cc.Alias, RevSlow: cc.Slow}))
 	}
 	// gated calls make their reverse calls only after all forward calls are pending (nesting under concurrency)
 	for i, cc := range c.Calls {
@@ -176,6 +181,20 @@ func runC16(c c16Case) (*Violation, string) {
 		if p.Err != nil {
 			return violf("forward-call-failed", "forward call %s on client %d (healthy link) failed: %v", p.Tok, ci, p.Err), ""
 		}
+		if p.Kind == "notify" {
+			// no result travels back: the handler must have run to its end with every reverse call answered
+			deadline := time.Now().Add(5 * time.Second)
+			for rig.W.Finished(p.Tok) < 1 && time.Now().Before(deadline) {
+				time.Sleep(time.Millisecond)
+			}
+			if rig.W.Finished(p.Tok) < 1 {
+				return violf("reverse-call-hangs", "the handler of forward notification %s (client %d, healthy link) has not finished after 5s (it makes %d reverse calls)", p.Tok, ci, cc.Reverse), ""
+			}
+			if errs := rig.W.RevErrs(p.Tok); len(errs) > 0 {
+				return violf("reverse-call-failed", "reverse calls made by the handler of forward notification %s failed: %v", p.Tok, errs), ""
+			}
+			continue
+		}
 		if v := p.CheckOwn(); v != nil {
 			return v, ""
 		}
@@ -219,6 +238,9 @@ func c16NT(c c16Case) (bool, []string) {
 		if cc.Alias {
 			cl = append(cl, "alias_and_tag")
 		}
+		if cc.Notify {
+			cl = append(cl, "forward_notification")
+		}
 		if cc.Slow {
 			cl = append(cl, "slow_reverse")
 		}
@@ -241,7 +263,7 @@ func TestC16(t *testing.T) {
 	rec := NewRec("C16", c16Rule)
 	defer rec.Finish(t)
 	rec.EnableJournal()
-	rec.RequireClass("burst_into_stalled_link", "mode_ws", "mode_http", "mode_nooption", "clients_3", "alias_and_tag", "slow_reverse", "link_cut", "several_reverse_calls")
+	rec.RequireClass("forward_notification", "burst_into_stalled_link", "mode_ws", "mode_http", "mode_nooption", "clients_3", "alias_and_tag", "slow_reverse", "link_cut", "several_reverse_calls")
 	run := func(ft failer, c c16Case) {
 		nt, cl := c16NT(c)
 		rec.Run(ft, c, nt, cl, func() *Violation {
@@ -259,7 +281,7 @@ func TestC16(t *testing.T) {
 		for k := 1; k <= 5; k++ {
 			var calls []c16Call
 			for i := 0; i < 2*k; i++ {
-				calls = append(calls, c16Call{Client: i % k, Reverse: 1 + i%3, Alias: i%2 == 0, Gate: i%3 != 0})
+				calls = append(calls, c16Call{Client: i % k, Reverse: 1 + i%3, Alias: i%2 == 0, Gate: i%3 != 0, Notify: i%4 == 1})
 			}
 			run(t, c16Case{Mode: "ws", Clients: k, Calls: calls})
 		}
@@ -278,8 +300,11 @@ func TestC16(t *testing.T) {
 			}
 		}
 		for _, kind := range []string{"fin", "rst"} {
-			run(t, c16Case{Mode: "ws", Clients: 2, Calls: []c16Call{{Client: 0, Burst: 40}, {Client: 1, Reverse: 1}},
-				Cut: &Fault{Conn: 0, Dir: "s2c", Frame: 9999, Pos: "before", Kind: kind}})
+			// which of the queued reverse calls the dying connection loop still accepts is up to the scheduler: repeat
+			for rep := 0; rep < scale(6, 25); rep++ {
+				run(t, c16Case{Mode: "ws", Clients: 2, Calls: []c16Call{{Client: 0, Burst: 24 + rep}, {Client: 1, Reverse: 1}},
+					Cut: &Fault{Conn: 0, Dir: "s2c", Frame: 9999, Pos: "before", Kind: kind}})
+			}
 			run(t, c16Case{Mode: "ws", Clients: 2, Calls: []c16Call{{Client: 0, Slow: true}, {Client: 1, Reverse: 1}, {Client: 0, Slow: true, Reverse: 1}},
 				Cut: &Fault{Conn: 0, Dir: "s2c", Frame: 99, Pos: "before", Kind: kind}})
 		}
@@ -290,7 +315,7 @@ func TestC16(t *testing.T) {
 		cut := c.Mode == "ws" && rapid.IntRange(0, 2).Draw(rt, "cut") == 0
 		for i := 0; i < n; i++ {
 			l := fmt.Sprintf("c%d_", i)
-			cc := c16Call{Client: rapid.IntRange(0, c.Clients-1).Draw(rt, l+"client"), Reverse: rapid.IntRange(0, 3).Draw(rt, l+"rev"), Alias: rapid.Bool().Draw(rt, l+"alias"), Gate: rapid.Bool().Draw(rt, l+"gate")}
+			cc := c16Call{Client: rapid.IntRange(0, c.Clients-1).Draw(rt, l+"client"), Reverse: rapid.IntRange(0, 3).Draw(rt, l+"rev"), Alias: rapid.Bool().Draw(rt, l+"alias"), Gate: rapid.Bool().Draw(rt, l+"gate"), Notify: rapid.IntRange(0, 3).Draw(rt, l+"notify") == 0}
 			if cut && c.Mode == "ws" {
 				cc.Slow = rapid.IntRange(0, 3).Draw(rt, l+"slow") == 0
 			}
